@@ -902,6 +902,27 @@ namespace Pistache::Async
         Rejection(Rejection&& other) = default;
         Rejection& operator=(Rejection&& other) = default;
 
+        // An exception that is already captured is stored as it is: wrapping it
+        // again would make handlers receive a std::exception_ptr as the exception
+        bool operator()(std::exception_ptr exc) const
+        {
+            if (!core_)
+                return false;
+
+            if (core_->state != State::Pending)
+                throw Error("Attempt to reject a fulfilled promise");
+
+            std::unique_lock<std::mutex> guard(core_->mtx);
+            core_->exc   = std::move(exc);
+            core_->state = State::Rejected;
+            for (const auto& req : core_->requests)
+            {
+                req->reject(core_);
+            }
+
+            return true;
+        }
+
         template <typename Exc>
         bool operator()(Exc exc) const
         {
